@@ -87,7 +87,12 @@ func actSpecs(rank int) []actSpec {
 	for _, m := range []float64{0, 0.01, 0.5, 1, 2, -0.3} {
 		m := m
 		specs = append(specs, actSpec{fmt.Sprintf("LeakyRelu(%g)", m), ref.Instr{Op: "leakyrelu", F: m},
-			func() (fwd, error) { return activations.NewLeakyRelu(&activations.LeakyReluConfig{M: m}), nil }})
+			func() (fwd, error) {
+				conf := &activations.LeakyReluConfig{M: m}
+				a := activations.NewLeakyRelu(conf)
+				conf.M = 123 // the caller's config is overwritten after construction
+				return a, nil
+			}})
 	}
 	if rank >= 1 {
 		specs = append(specs, actSpec{"Softmax(nil)", ref.Instr{Op: "softmax", Dim: 0}, func() (fwd, error) { return activations.NewSoftmax(nil) }})
@@ -95,12 +100,45 @@ func actSpecs(rank int) []actSpec {
 	for d := 0; d < rank; d++ {
 		d := d
 		specs = append(specs, actSpec{fmt.Sprintf("Softmax(%d)", d), ref.Instr{Op: "softmax", Dim: d},
-			func() (fwd, error) { return activations.NewSoftmax(&activations.SoftmaxConfig{Dim: d}) }})
+			func() (fwd, error) {
+				conf := &activations.SoftmaxConfig{Dim: d}
+				a, err := activations.NewSoftmax(conf)
+				conf.Dim = 7
+				return a, err
+			}})
 	}
 	return specs
 }
 
 func runC14(c *fw.Ctx) {
+	for i := 0; i < c.Pick(600, 6000); i++ { // one long dimension (127..2049), Softmax along it or along a short one
+		c.Case(func(k *fw.K) {
+			shape, long := LongShape(k.Rng, 3, 2049)
+			specs := actSpecs(len(shape))
+			sp := specs[k.Rng.Intn(len(specs))]
+			if k.Rng.Intn(2) == 0 {
+				sp = specs[len(specs)-len(shape)+long] // Softmax along the long dimension
+			}
+			obj, err := sp.mk()
+			if err != nil {
+				k.Failf("%s: constructor failed: %v", sp.name, err)
+				return
+			}
+			x, cname := actValues(k, k.Rng.Intn(2), shape, sp.in.Dim)
+			k.Case = map[string]any{"activation": sp.name, "shape": shape, "class": cname}
+			k.Key("%s/%s/%s/long", sp.name, shapeKey(shape), cname)
+			k.Count("forward_calls_long_dimension", 1)
+			want, _ := ref.Apply(sp.in, []*ref.T{x})
+			var y tensor.Tensor
+			if p := call(func() { y, err = obj.Forward(rt.MustLeaf(x, false)) }); p != nil || err != nil || y == nil {
+				k.Failf("%s on shape %v [%s]: panic=%v err=%v", sp.name, shape, cname, p, err)
+				return
+			}
+			if e := rt.Compare(y, want, 1e-300, 1e-11, nil, 0); e != nil {
+				k.Failf("%s on shape %v [%s]: %v", sp.name, shape, cname, e)
+			}
+		})
+	}
 	for _, shape := range Shapes(0, c.Pick(5, 6), 3) {
 		for _, sp := range actSpecs(len(shape)) {
 			for class := 0; class < 4; class++ {
@@ -156,5 +194,8 @@ func runC14(c *fw.Ctx) {
 func leakyOf(m float64) (interface {
 	Forward(...tensor.Tensor) (tensor.Tensor, error)
 }, error) {
-	return activations.NewLeakyRelu(&activations.LeakyReluConfig{M: m}), nil
+	conf := &activations.LeakyReluConfig{M: m}
+	a := activations.NewLeakyRelu(conf)
+	conf.M = 123
+	return a, nil
 }
